@@ -1228,7 +1228,7 @@ class GymEnvInit(EnvInit):
 class ScenarioInitLoop(LoopContract):
     qualname = SCN + "__init__"
     ordinal = 0
-    tags = ("C09", "C19")
+    tags = ("C09", "C19", "C01", "C02", "C03", "C04", "C05", "C06", "C07", "C08", "C10", "C11", "C12", "C13")
 
     def snapshot(self, I, fr, seq):
         return {}
@@ -1258,7 +1258,8 @@ class ScenarioInit(Contract):
     callable_by_contract = False
     bounded = False
     # the host numbering is what ties a host's row in every tensor to its configuration: tensorize's clauses rest on it
-    tags = {"": ("C09", "C19", "C11", "C01", "C08", "C04")}
+    # ... and so does everything the dynamics, the goal test, the observations and the action mask look up by row
+    tags = {"": ("C09", "C19", "C11", "C01", "C08", "C04", "C02", "C03", "C05", "C06", "C07", "C10", "C12", "C13")}
 
     def setup(self, I, variant):
         sig = sig_setup(I)
